@@ -33,13 +33,17 @@ pub fn roots_of(ws: &Workspace) -> Vec<SourceRoot> {
 
 pub fn graph_of(ws: &Workspace) -> PackageGraph {
     let mut g = PackageGraph::default();
+    // a package without a name stands for a source root that is in no package of the graph (a
+    // free-standing file, a project whose gleam.toml could not be read)
     let mut ids = vec![];
     for p in &ws.packages {
-        ids.push(g.add_package(p.name.as_str().into(), FileId(p.toml_file as u32), p.is_local));
+        ids.push(if p.name.is_empty() { None } else { Some(g.add_package(p.name.as_str().into(), FileId(p.toml_file as u32), p.is_local)) });
     }
     for (i, p) in ws.packages.iter().enumerate() {
         for &d in &p.deps {
-            g.add_dep(ids[i], Dependency { package: ids[d] });
+            if let (Some(from), Some(to)) = (ids[i], ids[d]) {
+                g.add_dep(from, Dependency { package: to });
+            }
         }
     }
     g
